@@ -314,7 +314,15 @@ impl DebrayAllocator {
             RegType::Perm(p) if p != 0 => {
                 if let GenContext::Last(_) = term_loc {
                     self.mark_var_in_non_callable(var_num, term_loc, vr, code);
-                    temp_v!(arg)
+
+                    // The value was loaded into the argument register the allocator had
+                    // reached (arg_c). That is not `arg` when an earlier operand was a
+                    // literal and consumed no register (`2 =< V`): reading A_arg then
+                    // reads a stale register.
+                    match vr.get() {
+                        VarReg::ArgAndNorm(_, k) => temp_v!(k),
+                        _ => temp_v!(arg),
+                    }
                 } else {
                     if let VarAlloc::Perm(_, PermVarAllocation::Pending) =
                         &self.var_data.records[var_num].allocation
